@@ -74,6 +74,11 @@ theorem mem_run_perLine (f : Nat → Str → List Report) : ∀ (ls : List Str) 
         have : n + 1 + i = n + (i + 1) := by omega
         rw [this]; exact hr
 
+theorem set_get (lines : List Str) (i : Nat) (l l' : Str) (h : lines[i]? = some l) :
+    (lines.set i l')[i]? = some l' := by
+  have := (List.getElem?_eq_some_iff.mp h).1
+  simp [this]
+
 /-! ### whitespace facts -/
 
 theorem all_of_dropWhile_nil {p : Char → Bool} : ∀ {s : Str}, s.dropWhile p = [] → ∀ c ∈ s, p c = true
